@@ -394,6 +394,29 @@ def reaches(r: Runner, start, target) -> bool:
     return False
 
 
+def upchain(o) -> list:
+    out, seen = [], set()
+    while o is not None and id(o) not in seen and len(out) < 64:
+        seen.add(id(o))
+        out.append(o)
+        o = o.parent
+    return out
+
+
+def reaches_any(start, targets) -> bool:
+    tg = {id(x) for x in targets}
+    stack, seen = [start], set()
+    while stack:
+        x = stack.pop()
+        if id(x) in tg:
+            return True
+        if id(x) in seen:
+            continue
+        seen.add(id(x))
+        stack.extend(x.get_child_nodes())
+    return False
+
+
 def run_program(W, prog, sink: dict, strays: list):
     """execute; add distinct transitions to sink (hash -> line)"""
     from pyoak.legacy.node import AwareASTNode
@@ -406,14 +429,16 @@ def run_program(W, prog, sink: dict, strays: list):
         refs = [op["a"], op["b"]] + list(op["kids"] or [])
         if any(h and (h > len(R.nodes) or R.nodes[h - 1] is None) for h in refs):
             break       # refers to a node an earlier, rejected operation never produced
-        # precondition: an operation must not build a cycle
-        if op["op"] in ("create", "replace_kids") and op["op"] == "replace_kids":
-            a = R.nodes[op["a"] - 1]
-            if any(reaches(R, R.nodes[k - 1], a) for k in (op["kids"] or [])):
+        # precondition: an operation must not build a cycle.  The new node takes the receiver's place in the receiver's
+        # parent -- found through the stored link, which may point to a node that does not hold the receiver -- so
+        # nothing below the argument may be the receiver or one of its parents (LegacyMC.tla: Up / Below)
+        if op["op"] == "replace_kids":
+            up = upchain(R.nodes[op["a"] - 1])
+            if any(reaches_any(R.nodes[k - 1], up) for k in (op["kids"] or [])):
                 break
         if op["op"] == "replace_with":
             a, b = R.nodes[op["a"] - 1], R.nodes[op["b"] - 1]
-            if reaches(R, b, a) or reaches(R, a, b):
+            if reaches_any(b, upchain(a)) or reaches(R, a, b):
                 break
         if R.drop_inadmissible(op):
             break
@@ -611,7 +636,7 @@ def trace_shards(chk, module, lines, name):
         with open(fn, "w") as fh:
             for ln in part:
                 fh.write(json.dumps({a: b for a, b in ln.items() if a not in STRIP}) + "\n")
-        r = tlc.run(wd, module, cfg, workers=1, timeout=3000, env={"TRACE_FILE": str(fn)}, heap="3g")
+        r = tlc.run(wd, module, cfg, workers=1, timeout=3000, env={"TRACE_FILE": str(fn)}, heap="3g", gc_threads=1)
         rej = tlc.rejected(r, len(part), module)
         shutil.rmtree(wd, ignore_errors=True)
         return j, r, rej
@@ -645,14 +670,23 @@ MC_INVARIANTS = {"C18": ["C18ChildrenAttached", "C18ParentBackLink", "C18CidFres
                  "C19": ["C19Frame", "C19EarlyErrorsClean"]}
 
 
+def tla_prog(prog) -> str:
+    def one(o):
+        kids = "<<" + ", ".join(str(k) for k in o["kids"]) + ">>"
+        return (f'[op |-> "{o["op"]}", c |-> "{o["c"]}", a |-> {o["a"]}, b |-> {o["b"]}, kids |-> {kids}, '
+                f'atom |-> {o["atom"]}, mode |-> "{o["mode"]}"]')
+    return "<<" + ", ".join(one(o) for o in prog) + ">>"
+
+
 def mc_design(chk, pid, name, maxops, maxhandles, classes, maxkids, modes=("plain", "detached", "unique"),
-              dupmodes=("attached", "detached"), atoms=(0, 1), ops=None, emit=True, invariants=None):
+              dupmodes=("attached", "detached"), atoms=(0, 1), ops=None, emit=True, invariants=None, prelude=()):
     """TLC on the machine itself (LegacyMC.tla): the property as an invariant of the design, and the witness program
     of every transition taken"""
     inv = MC_INVARIANTS[pid] if invariants is None else invariants
     mod, cfg = inst.instance("I_LegacyMC", "LegacyMC",
                              dict(MaxOps=maxops, MaxHandles=maxhandles, GenClasses=set(classes), MaxKids=maxkids,
-                                  Ops=set(ops or MC_OPS), Modes=set(modes), DupModes=set(dupmodes), Atoms=set(atoms)),
+                                  Ops=set(ops or MC_OPS), Modes=set(modes), DupModes=set(dupmodes), Atoms=set(atoms),
+                                  Prelude="@tla:" + tla_prog(prelude)),
                              invariants=inv, view="View", action_constraints=["Emit"] if emit else [])
     (chk.wd / "I_LegacyMC.tla").write_text(mod)
     r = tlc.run(chk.wd, "I_LegacyMC", cfg, workers=core.NPROC, timeout=3000, heap="8g")
@@ -675,25 +709,35 @@ def run(chk: core.Check, pid: str, classify):
     #     witness program per transition of the model
     raws = []
     ALL3 = ("plain", "detached", "unique")
-    # (name, MaxOps, MaxHandles, classes, MaxKids, modes, atoms, ops (None = all modelled), dup modes)
+    # (name, MaxOps, MaxHandles, classes, MaxKids, modes, atoms, ops (None = all modelled), dup modes, prelude)
+    TUPLE = [_O("create", "LLeaf", mode="plain"), _O("create", "LLeaf", mode="plain"), _O("create", "LMany", kids=[1, 2], mode="plain"),
+             _O("create", "LLeaf", mode="plain"), _O("create", "LUnary", kids=[4], mode="plain")]
+    CHAIN = [_O("create", "LLeaf", mode="plain"), _O("create", "LUnary", kids=[1], mode="plain"), _O("create", "LUnary", kids=[2], mode="plain")]
+    DETACH = {"create", "detach", "attach", "duplicate"}
+    REPL = {"create", "replace_with", "replace_with_none", "detach"}
+    PD = ("plain", "detached")
     if quick:
-        mcs = [("abc-4", 4, 3, ["LLeaf", "LUnary", "LMany"], 2, ALL3, (0, 1), None, None),
-               ("chains-5", 5, 4, ["LLeaf", "LUnary"], 1, ("plain", "detached"), (0,), None, None),
-               ("opt-list-4", 4, 3, ["LLeaf", "LOpt", "LList"], 2, ("plain", "detached"), (0,), None, None),
+        mcs = [("abc-4", 4, 3, ["LLeaf", "LUnary", "LMany"], 2, ALL3, (0, 1), None, None, ()),
+               ("chains-5", 5, 4, ["LLeaf", "LUnary"], 1, PD, (0,), None, None, ()),
+               ("opt-list-4", 4, 3, ["LLeaf", "LOpt", "LList"], 2, PD, (0,), None, None, ()),
                # long histories over few operations: detach / re-attach / duplicate chains; replacements inside tuples
-               ("focus-detach-6", 6, 5, ["LLeaf", "LUnary"], 1, ("plain",), (0,), {"create", "detach", "attach", "duplicate"}, ("attached",)),
-               ("focus-replace-5", 5, 4, ["LLeaf", "LMany"], 2, ("plain",), (0,),
-                {"create", "replace_with", "replace_with_none", "detach"}, ("attached",))]
+               ("focus-detach-6", 6, 5, ["LLeaf", "LUnary"], 1, ("plain",), (0,), DETACH, ("attached",), ()),
+               ("focus-replace-5", 5, 4, ["LLeaf", "LMany"], 2, ("plain",), (0,), REPL, ("attached",), ()),
+               # every operation, two / three deep, from a state that has a tuple of two, a chain and spare nodes
+               ("after-tuple-2", 7, 7, ["LLeaf", "LUnary", "LMany"], 2, PD, (0,), None, None, TUPLE),
+               ("after-chain-3", 6, 6, ["LLeaf", "LUnary"], 1, PD, (0, 1), None, None, CHAIN)]
     else:
-        mcs = [("abc-4", 4, 4, ["LLeaf", "LUnary", "LMany"], 2, ALL3, (0, 1), None, None),
-               ("chains-6", 6, 5, ["LLeaf", "LUnary"], 1, ("plain", "detached"), (0,), None, None),
-               ("opt-list-5", 5, 4, ["LLeaf", "LSub", "LOpt", "LList"], 2, ("plain", "detached"), (0,), None, None),
-               ("focus-detach-7", 7, 6, ["LLeaf", "LUnary"], 1, ("plain",), (0,), {"create", "detach", "attach", "duplicate"}, ("attached",)),
-               ("focus-replace-6", 6, 4, ["LLeaf", "LMany"], 2, ("plain",), (0,),
-                {"create", "replace_with", "replace_with_none", "detach"}, ("attached",))]
-    for name, maxops, maxh, classes, maxkids, modes, atoms, ops, dupmodes in mcs:
+        mcs = [("abc-4", 4, 4, ["LLeaf", "LUnary", "LMany"], 2, ALL3, (0, 1), None, None, ()),
+               ("chains-6", 6, 5, ["LLeaf", "LUnary"], 1, PD, (0,), None, None, ()),
+               ("opt-list-5", 5, 4, ["LLeaf", "LSub", "LOpt", "LList"], 2, PD, (0,), None, None, ()),
+               ("focus-detach-7", 7, 6, ["LLeaf", "LUnary"], 1, ("plain",), (0,), DETACH, ("attached",), ()),
+               ("focus-replace-6", 6, 4, ["LLeaf", "LMany"], 2, ("plain",), (0,), REPL, ("attached",), ()),
+               ("replace-kids-6", 6, 6, ["LLeaf", "LMany"], 2, ("plain",), (0,), {"create", "replace_kids"}, ("attached",), ()),
+               ("after-tuple-3", 8, 8, ["LLeaf", "LUnary", "LMany"], 2, PD, (0,), None, None, TUPLE),
+               ("after-chain-4", 7, 7, ["LLeaf", "LUnary"], 1, PD, (0, 1), None, None, CHAIN)]
+    for name, maxops, maxh, classes, maxkids, modes, atoms, ops, dupmodes, prelude in mcs:
         r = mc_design(chk, pid, name, maxops, maxh, classes, maxkids, modes=modes, atoms=atoms, ops=ops,
-                      dupmodes=dupmodes or ("attached", "detached"))
+                      dupmodes=dupmodes or ("attached", "detached"), prelude=prelude)
         if r.violated:
             chk.tlc_violation("LegacyMC-" + name, r)
         else:
@@ -739,6 +783,12 @@ def judge(chk, pid, classify, alllines, nprogs=0, nrandom=0, name=""):
     nonconform = [mlines[i - 1] for i, v in sorted(mach.items()) if not v["conform"]]
     # code -> spec, the property: transitions from states reached by successful operations
     lines = [ln for ln in mine if ln["clean"]]
+    if pid == "C19":
+        # ... that are consistent: with nested id twins (the recorded C18 finding) the state before the call is already
+        # broken, and a rollback that re-links the children "changes" it (LegacyMC.tla: last.pre)
+        n0 = len(lines)
+        lines = [ln for ln in lines if not twin_nested(ln["pre"])]
+        chk.notes["rejected_transitions_from_twin_nested_states_not_judged"] = n0 - len(lines)
     chk.bounds.update({"programs_from_TLC": nprogs, "random_programs": nrandom, "distinct_transitions_judged": len(lines),
                        "distinct_transitions_checked_against_the_machine": len(mlines)})
     rej = monitor(chk, lines, "monitor" + name)
@@ -773,6 +823,17 @@ def judge(chk, pid, classify, alllines, nprogs=0, nrandom=0, name=""):
         ln = div[0]
         print(f"NOTE property={pid} {len(div)} observed transitions differ from Legacy.tla without breaking a clause of the "
               f"property; first: {json.dumps(ln['witness'])[:300]} diff {json.dumps(mverdict[ln['hsh']]['diff'])[:300]}")
+
+
+def twin_nested(S) -> bool:
+    """some node shares its id with a node below it"""
+    for n, r in S.items():
+        below: set = set()
+        _subtree(S, n, below)
+        below.discard(n)
+        if any(S[m]["id"] == r["id"] for m in below):
+            return True
+    return False
 
 
 def first_sound_history(ln, bad):
